@@ -1,14 +1,20 @@
 package checks
 
 import (
+	"fmt"
+	"go/types"
+	"sort"
+	"strings"
+
 	"bmverif/internal/core"
+	"golang.org/x/tools/go/ssa"
 )
 
 func init() {
 	register("C17", checkC17)
 	describe("C17", Meta{
 		Technique: "goroutine-lifecycle analysis on go/ssa: exit reachability of every launched body, join/stop issued on every returning path of the launcher, constructor/release pairing over the call graph, exit-token counting against launched receivers",
-		Claim:     "Decides the structural leak clauses of C17 for every go statement in the simulation, tuning and requirement-engine packages: the goroutine body has a reachable return (W1), the launcher joins/stops it on every returning path (W2), an owner type that starts a goroutine in its constructor has its release method called wherever the owner does not escape (W3), exit tokens match the launched receivers, and a goroutine waiting on a channel only its launcher can release is released on every returning path of the launcher (UNBLOCK). A necessary condition for 'no workers left behind'; retained memory and exits that exist but are never taken for dynamic reasons are not decided.",
+		Claim:     "Decides the structural leak clauses of C17 for every go statement in the simulation, tuning and requirement-engine packages: the goroutine body has a reachable return (W1), the launcher joins/stops it on every returning path (W2), an owner type that starts a goroutine in its constructor has its release method called wherever the owner does not escape (W3), exit tokens match the launched receivers, and a goroutine waiting on a channel only its launcher can release is released on every returning path of the launcher (UNBLOCK). RETAIN: nothing reachable from the simulation entry points inserts into a package-level map/sync.Map under a pointer key or appends to a package-level slice (state that grows with the number of simulations). A necessary condition for 'no workers left behind'; memory retained otherwise and exits that exist but are never taken for dynamic reasons are not decided.",
 		Note:      "Scope is by package (pkg/bondmachine, pkg/procbuilder, pkg/bmreqs, pkg/basm, pkg/simbox, cmd/simfinetune, cmd/bondmachine); network daemons (etherbond, udpbond, brvga, bmapi templates) are long-lived by design and out of scope.",
 		DesignRef: "DESIGN.md §2 C17",
 	})
@@ -26,4 +32,176 @@ func checkC17(r *core.Run) {
 	chanJoinOrder(r, prog, "C17", c17Scope)
 	releasePairing(r, prog, "C17")
 	exitTokens(r, prog, "C17", c17Scope)
+	c17Retain(r, prog)
+}
+
+// entry points of "a simulation" for the retention clause
+var c17Entries = []struct{ rel, recv, name string }{
+	{"pkg/bondmachine", "Bondmachine", "SinglePipelineSimulate"},
+	{"pkg/bondmachine", "Bondmachine", "Fitness_default"},
+	{"pkg/bondmachine", "VM", "Init"},
+	{"pkg/bondmachine", "VM", "Step"},
+	{"pkg/bondmachine", "VM", "Launch_processors"},
+	{"pkg/procbuilder", "VM", "Step"},
+}
+
+// c17Retain (C17/RETAIN): "no more retained simulator state than before the first one". On everything
+// reachable (CHA, module functions) from the simulation entry points, a package-level container may not
+// grow with the number of simulations: reported are (a) an insertion into a package-level map or
+// sync.Map whose key is a pointer (one entry per object — and the objects of a simulation are allocated
+// per simulation), and (b) an append to a package-level slice. Insertions keyed by value (a type name, an
+// opcode name) are bounded by the number of distinct keys and are noted only.
+func c17Retain(r *core.Run, prog *core.Program) {
+	cg := prog.CHA()
+	reach := map[*ssa.Function]bool{}
+	var queue []*ssa.Function
+	for _, e := range c17Entries {
+		for _, fn := range methodsNamed(prog, e.rel, e.name) {
+			if strings.Contains(core.SSAFuncKey(fn), "."+e.recv+".") && !reach[fn] {
+				reach[fn] = true
+				queue = append(queue, fn)
+			}
+		}
+	}
+	nEntries := len(queue)
+	for len(queue) > 0 {
+		fn := queue[0]
+		queue = queue[1:]
+		if n := cg.Nodes[fn]; n != nil {
+			for _, e := range n.Out {
+				c := e.Callee.Func
+				if c != nil && core.InModule(c) && !reach[c] {
+					reach[c] = true
+					queue = append(queue, c)
+				}
+			}
+		}
+	}
+	r.Count("retention_entry_points", nEntries)
+	r.Count("functions_on_simulation_path", len(reach))
+	globalOf := func(v ssa.Value) *ssa.Global {
+		for i := 0; i < 6; i++ {
+			switch x := v.(type) {
+			case *ssa.Global:
+				return x
+			case *ssa.UnOp:
+				v = x.X
+			case *ssa.FieldAddr:
+				v = x.X
+			case *ssa.IndexAddr:
+				v = x.X
+			default:
+				return nil
+			}
+		}
+		return nil
+	}
+	isPtrKey := func(v ssa.Value) bool {
+		v = stripConvKeepIface(v)
+		_, ok := v.Type().Underlying().(*types.Pointer)
+		return ok
+	}
+	var fns []*ssa.Function
+	for fn := range reach {
+		fns = append(fns, fn)
+	}
+	sort.Slice(fns, func(i, j int) bool { return fns[i].String() < fns[j].String() })
+	bad, noted := 0, 0
+	seen := map[string]bool{}
+	for _, fn := range fns {
+		for _, b := range fn.Blocks {
+			for _, ins := range b.Instrs {
+				var g *ssa.Global
+				what := ""
+				ptr := false
+				switch x := ins.(type) {
+				case *ssa.MapUpdate:
+					g = globalOf(x.Map)
+					what, ptr = "map insertion", isPtrKey(x.Key)
+				case *ssa.Store:
+					if gl, ok := x.Addr.(*ssa.Global); ok {
+						if call, ok := x.Val.(*ssa.Call); ok {
+							if bi, ok := call.Call.Value.(*ssa.Builtin); ok && bi.Name() == "append" {
+								g, what, ptr = gl, "append", true
+								// add-if-absent: the function first walks the same slice and returns when
+								// it finds the element — bounded by the number of distinct elements
+								searchAndReturn := false
+								for _, b2 := range fn.Blocks {
+									for _, i2 := range b2.Instrs {
+										ia, ok := i2.(*ssa.IndexAddr)
+										if !ok || !blockInCycle(b2) {
+											continue
+										}
+										if u, ok := ia.X.(*ssa.UnOp); !ok || u.X != ssa.Value(gl) {
+											continue
+										}
+										// a successor outside the loop that returns: the element was found
+										for _, sc := range b2.Succs {
+											if blockInCycle(sc) {
+												continue
+											}
+											for _, i3 := range sc.Instrs {
+												if _, ok := i3.(*ssa.Return); ok {
+													searchAndReturn = true
+												}
+											}
+										}
+									}
+								}
+								if searchAndReturn {
+									ptr = false
+									what = "append guarded by a search of the same slice that returns when the element is present (add-if-absent)"
+								}
+							}
+						}
+					}
+				case ssa.CallInstruction:
+					cc := x.Common()
+					if c := cc.StaticCallee(); c != nil && c.Pkg != nil && c.Pkg.Pkg.Path() == "sync" && len(cc.Args) >= 2 {
+						switch c.Name() {
+						case "Store", "LoadOrStore", "Swap":
+							g = globalOf(cc.Args[0])
+							what, ptr = "sync.Map insertion", isPtrKey(cc.Args[1])
+						}
+					}
+				}
+				if g == nil || !strings.HasPrefix(g.Pkg.Pkg.Path(), core.ModPath) {
+					continue
+				}
+				gname := strings.TrimPrefix(g.Pkg.Pkg.Path(), core.ModPath+"/") + "." + g.Name()
+				inst := fmt.Sprintf("C17/RETAIN:%s in %s", gname, core.SSAFuncKey(fn))
+				if seen[inst] {
+					continue
+				}
+				seen[inst] = true
+				if ptr {
+					bad++
+					r.Violation("C17/RETAIN", inst, prog.Pos(ins.Pos()), fmt.Sprintf("%s (%s), reachable from a simulation entry point, adds to the package-level container %s one entry per object: the objects of a simulation (VMs, per-processor delay distributions, …) are allocated per simulation, so the container — and everything its entries point to — grows with the number of simulations and is never released", core.SSAFuncKey(fn), what, gname))
+				} else {
+					noted++
+					r.Note("C17/RETAIN", inst, prog.Pos(ins.Pos()), what+" keyed by value: bounded by the number of distinct keys, not by the number of simulations")
+				}
+			}
+		}
+	}
+	if bad == 0 {
+		r.OK("C17/RETAIN", "C17/RETAIN:none", "", "no package-level container on the simulation path grows per object or per call")
+	}
+	r.Count("global_container_insertions_on_simulation_path", bad+noted)
+}
+
+// stripConvKeepIface strips conversions and the interface boxing of a sync.Map key.
+func stripConvKeepIface(v ssa.Value) ssa.Value {
+	for {
+		switch x := v.(type) {
+		case *ssa.MakeInterface:
+			v = x.X
+		case *ssa.ChangeType:
+			v = x.X
+		case *ssa.ChangeInterface:
+			v = x.X
+		default:
+			return v
+		}
+	}
 }
